@@ -514,7 +514,12 @@ impl W {
         let Some(o) = self.objs.get(id as usize).cloned() else {
             return;
         };
-        if o.destroyed || o.loc != Loc::InPool || o.in_hand.is_some() {
+        // a return that has pushed the object but not finished yet leaves it idle
+        let in_hand = match o.in_hand {
+            Some(h) if self.op_kind(h) == OpKind::Return => None,
+            x => x,
+        };
+        if o.destroyed || o.loc != Loc::InPool || in_hand.is_some() {
             self.flag(
                 "retain-touched-non-idle",
                 &["C09"],
